@@ -117,6 +117,7 @@ var c17Prefixes = []string{"10.1.0.0/24", "10.2.0.0/24", "10.3.0.0/16"}
 
 type c17Path struct {
 	uid, src, pid, rd, pfx int
+	root                 int // announcement the object was cloned from (0: itself); also the marker carried
 	label, pref          uint32
 	ecs                  []bgp.ExtendedCommunityInterface
 	p                    *Path
@@ -155,8 +156,15 @@ func c17UID(p *Path) int {
 	return int(cs[1])
 }
 
+func (c *c17Path) rootID() int {
+	if c.root != 0 {
+		return c.root
+	}
+	return c.uid
+}
+
 func (c *c17Path) def(o *vOut) {
-	o.op("path %d %d %d %d %d %d %d %d %s", c.uid, c.src+1, c.pid, c.rd, c.pfx, c.label, c.pref, c.uid, c17ECs(c.ecs))
+	o.op("path %d %d %d %d %d %d %d %d %d %s", c.uid, c.rootID(), c.src+1, c.pid, c.rd, c.pfx, c.label, c.pref, c.rootID(), c17ECs(c.ecs))
 }
 
 func c17UIDs(l []*Path) string {
@@ -275,17 +283,22 @@ func (sc *c17Scn) checkIdx(what string) {
 }
 
 func (sc *c17Scn) update(c *c17Path, withdraw bool) {
-	o := sc.o
 	p := c.build(withdraw)
 	if !withdraw {
 		c.p = p
 	}
+	sc.feed(c, p, withdraw, nil)
+}
+
+// feed hands a path object to the table; also[] are communities whose index buckets are to be compared too
+func (sc *c17Scn) feed(c *c17Path, p *Path, withdraw bool, also []bgp.ExtendedCommunityInterface) {
+	o := sc.o
 	sc.tm.Update(p)
 	o.op("upd %d %d", c.uid, c17b2i(withdraw))
 	o.ask(c17UIDs(sc.known(c.rd, c.pfx)), "dest %d %d", c.rd, c.pfx)
 	dump := sc.idxDump()
 	seen := map[uint64]bool{}
-	for _, e := range c.ecs {
+	for _, e := range append(append([]bgp.ExtendedCommunityInterface{}, c.ecs...), also...) {
 		if capable, _, num := c17Octets(e); capable && !seen[num] {
 			seen[num] = true
 			o.ask(c17Ints(dump[num]), "idx %d", num)
@@ -318,6 +331,58 @@ func (sc *c17Scn) genPath() *c17Path {
 	// distinct preference per (source, path-id) slot inside a destination
 	c.pref = uint32(100 + r.intn(6)*64 + c.src*4 + c.pid)
 	return c
+}
+
+// refeedOp: a stored path is fed again, as soft reset in does: the very same object (no modifying
+// import policy), a fresh clone of it (policy that modifies nothing the table looks at), or a clone
+// whose route targets and/or preference were changed by the policy.
+func (sc *c17Scn) refeedOp() {
+	r, o := sc.r, sc.o
+	if len(sc.live) == 0 {
+		return
+	}
+	keys := c17SortedKeys(sc.live)
+	c := sc.live[keys[r.intn(len(keys))]]
+	switch mode := r.intn(10); {
+	case mode < 5:
+		o.stat("refeed_same_object", 1)
+		if k := sc.known(c.rd, c.pfx); len(k) > 0 && k[0] == c.p {
+			o.stat("refeed_same_object_is_best", 1)
+		}
+		sc.feed(c, c.p, false, nil)
+	default:
+		sc.uid++
+		nc := *c
+		nc.uid, nc.root = sc.uid, c.rootID()
+		q := c.p.Clone(false)
+		if mode >= 8 {
+			nc.ecs = c17PickECs(r, 3)
+			q.SetExtCommunities(append([]bgp.ExtendedCommunityInterface{}, nc.ecs...), true)
+			o.stat("refeed_clone_other_targets", 1)
+		} else {
+			o.stat("refeed_clone_same_content", 1)
+		}
+		if mode == 9 {
+			nc.pref = uint32(100 + r.intn(6)*64 + nc.src*4 + nc.pid)
+			q.setPathAttr(bgp.NewPathAttributeLocalPref(nc.pref))
+			o.stat("refeed_clone_other_preference", 1)
+		}
+		nc.p = q
+		nc.def(o)
+		sc.all[nc.uid] = &nc
+		sc.live[sc.key(&nc)] = &nc
+		sc.feed(&nc, q, false, c.ecs)
+	}
+}
+
+// objID: the model's id of a stored path object (clones share the marker, not the id)
+func (sc *c17Scn) objID(p *Path) int {
+	for _, c := range sc.live {
+		if c.p == p {
+			return c.uid
+		}
+	}
+	return c17UID(p)
 }
 
 func (sc *c17Scn) key(c *c17Path) string { return fmt.Sprintf("%d/%d/%d/%d", c.rd, c.pfx, c.src, c.pid) }
@@ -649,7 +714,7 @@ func (sc *c17Scn) vrfChecks() {
 				var wantSel []int
 				for _, p := range known {
 					got := CanImportToVrf(v.v, p)
-					o.ask(fmt.Sprint(c17b2i(got)), "canimp %d %d", v.id, c17UID(p))
+					o.ask(fmt.Sprint(c17b2i(got)), "canimp %d %d", v.id, sc.objID(p))
 					// oracle on octets
 					want := false
 					onlyNonTransitive := false
@@ -945,6 +1010,11 @@ func c17Corpus(o *vOut) {
 	sc.update(a, true)  // a withdrawn: must not be in the index any more
 	sc.update(a, false) // back as non-best
 	sc.update(b, true)  // b withdrawn: a is best again and must be indexed
+	// "fix: keep a VPN path in the route-target index when the same path object is fed again"
+	sc.feed(a, a.p, false, nil) // soft reset in without a modifying policy: a must stay indexed
+	sc.update(b, false)
+	sc.feed(b, b.p, false, nil)
+	sc.feed(a, a.p, false, nil)
 	sc.uid = 9100
 }
 
@@ -1005,8 +1075,10 @@ func TestVerifC17(t *testing.T) {
 		sc.uid = s * 1000
 		for i := 0; i < steps; i++ {
 			switch x := r.intn(100); {
-			case x < 50:
+			case x < 42:
 				sc.routeOp()
+			case x < 50:
+				sc.refeedOp()
 			case x < 57:
 				if len(sc.vrfs) < 4 {
 					sc.addVrf()
